@@ -818,7 +818,8 @@ static int sim_pthread_create(pthread_t* th, const pthread_attr_t* attr, void* (
 
 static Th* find_by_real(pthread_t r) {
     for (auto* t : g_ths) {
-        if (t->id != 0 && pthread_equal(t->real, r) && !t->joined) { return t; }
+        // a detached thread that has ended gives its pthread_t back for reuse: never match it
+        if (t->id != 0 && pthread_equal(t->real, r) && !t->joined && !t->detached) { return t; }
     }
     return nullptr;
 }
